@@ -281,6 +281,85 @@ def reduction_scale(m):
     return 1.0 + 0.25 * n + 4.0 * heavy
 
 
+_RANDOM_OPS = {"RandomUniform", "RandomNormal", "RandomUniformLike", "RandomNormalLike", "Multinomial", "Bernoulli"}
+
+
+def _random_nodes(g):
+    n = 0
+    for x in g.node:
+        if x.op_type in _RANDOM_OPS and x.domain in ("", "ai.onnx"):
+            n += 1
+        for a in x.attribute:
+            if a.HasField("g"):
+                n += _random_nodes(a.g)
+            for gg in a.graphs:
+                n += _random_nodes(gg)
+    return n
+
+
+def random_dependent(m):
+    """Names of values of the main graph that depend on a Random*/Multinomial/Bernoulli node (Shape/Size cut the
+    dependency; an If whose condition is a known constant only follows the taken branch)."""
+    from onnx import numpy_helper as nph
+
+    def consts(g, outer):
+        c = dict(outer)
+        for t in g.initializer:
+            if t.data_type == onnx.TensorProto.BOOL and not t.dims:
+                c[t.name] = bool(nph.to_array(t))
+        for n in g.node:
+            if n.op_type == "Constant" and n.attribute and n.attribute[0].HasField("t") and \
+                    n.attribute[0].t.data_type == onnx.TensorProto.BOOL and not n.attribute[0].t.dims:
+                c[n.output[0]] = bool(nph.to_array(n.attribute[0].t))
+        return c
+
+    fn_random = {(f.domain, f.name): _random_nodes(f) > 0 for f in m.functions}
+
+    def walk(g, outer_dep, outer_const):
+        dep = set(outer_dep)
+        cst = consts(g, outer_const)
+        for n in g.node:
+            d = any(i in dep for i in n.input if i)
+            if n.op_type in _RANDOM_OPS and n.domain in ("", "ai.onnx"):
+                d = True
+            if fn_random.get((n.domain, n.op_type)):
+                d = True
+            subs = []
+            for a in n.attribute:
+                if a.HasField("g"):
+                    subs.append((a.name, a.g))
+                subs.extend((a.name, x) for x in a.graphs)
+            if n.op_type == "If" and n.input and n.input[0] in cst:
+                taken = "then_branch" if cst[n.input[0]] else "else_branch"
+                subs = [(nm, sg) for nm, sg in subs if nm == taken]
+            for _, sg in subs:
+                sd = walk(sg, dep, cst)
+                if any(o.name in sd for o in sg.output):
+                    d = True
+            if n.op_type in ("Shape", "Size"):
+                d = False
+            if d:
+                dep.update(o for o in n.output if o)
+        return dep
+
+    return walk(m.graph, set(), {})
+
+
+_VALUE_PRESERVING = {"Identity", "Neg", "Add", "Sub", "Reshape", "Transpose", "Unsqueeze", "Squeeze", "Concat", "Expand", "Flatten", "Tile"}
+
+
+def random_strong(m):
+    """Under-approximation for the ORIGINAL: main-graph values every element of which is (an injective image of) a random
+    draw — outputs of Random* nodes carried through value-preserving ops only."""
+    dep = set()
+    for n in m.graph.node:
+        if n.op_type in _RANDOM_OPS and n.domain in ("", "ai.onnx"):
+            dep.update(n.output)
+        elif n.op_type in _VALUE_PRESERVING and n.domain in ("", "ai.onnx") and n.input and n.input[0] in dep:
+            dep.update(o for o in n.output if o)
+    return dep
+
+
 def has_f16(m):
     F16 = onnx.TensorProto.FLOAT16
 
@@ -313,6 +392,13 @@ def equivalent(m1, m2, feeds_list, base_outs=None, nondet=()):
     if n1 != n2:
         # "the same outputs in the same order": a caller fetches outputs by name
         return "output_names", f"graph outputs {n1} became {n2}"
+    if nondet:
+        # structural probe (ORT's Random* kernels repeat their numbers per session, so a folded random op is not visible
+        # in values): an output that depends on a random op in the original must still depend on one in the result
+        d1, d2 = random_strong(m1), random_dependent(m2)
+        lost = [o.name for o in m1.graph.output if o.name in d1 and o.name not in d2]
+        if lost:
+            return "nondeterminism_lost", f"output(s) {lost} depend on a Random* node in the original but on none in the result (folded into a constant)"
     try:
         s2 = runner.ort_session(m2)
     except Exception as e:
